@@ -15,6 +15,10 @@ CORPUS = [
     "let p = 'self q;\nlet q = { p };\nres /pq on get -> <q>;\n",
     "let node = { 'labels rec x [x], 'owner owner };\nlet owner = { 'name str, 'nodes [node] };\nres /nodes on get -> <node>;\n",
     "let f x = { 'l rec y [y], 'n (g x) };\nlet g x = f x;\nres / on get -> <f str>;\n",
+    # a recursion point that is the whole range or domain of a transfer (object <-> relation, rec in an applied function)
+    "let item = { 'name str, 'self rel };\nlet rel = /items/{ 'id int } on get -> item;\nres /items on get -> [item];\nres rel;\n",
+    "let page x = rec p { 'items [x], 'next (/more on get -> p) };\nres /nums on get -> <page num>;\nres /strs on get -> <page str>;\n",
+    "let node = { 'kids (/kids on put : node -> <>) };\nres /n on get -> <node>;\n",
     # cycles of URI declarations (through concat, through query parameters): never a schema to cut at
     "let a = concat /a a;\nres a;\n",
     "let a = concat /a b;\nlet b = concat /b a;\nres a on get -> <>;\n",
